@@ -119,6 +119,10 @@ fn build(s: &Schedule) -> Built {
     }
     observes.push((ops.len(), acked.clone(), "parked"));
     ops.push(Op::Observe { queries: read_suite(&acked) });
+    // the same reads, all in flight at once: readers overlap on the rotated buffer
+    ops.push(Op::Park { gate: "read.passive_locked".into(), shard: 0, seg: None, nth: 0 });
+    observes.push((ops.len(), acked.clone(), "parked, overlapping reads"));
+    ops.push(Op::ObservePar { queries: read_suite(&acked) });
     for _ in 0..s.extra {
         let e = ev(k, cap);
         k += 1;
